@@ -25,8 +25,28 @@ def _np_if(x, flag):
     return x
 
 
+_STATE = {"buffers": None}
+
+
 def _wells(op, key="wells", flag="wnp"):
     w = op[key]
+    bufs = _STATE["buffers"]
+    if op.get("wbuf") and key == "wells" and bufs is not None and isinstance(w, list) and w and not isinstance(w[0], list):
+        # the script keeps ONE selection object per labware and refills it before every call
+        # (`sel[:] = [...]` / `sel[...] = ...`): the same mutable object is handed over again with other content
+        kind = op["wbuf"]
+        k = (op.get("lab"), kind, len(w) if kind == "array" else None)
+        if kind == "list":
+            buf = bufs.setdefault(k, [])
+            buf[:] = list(w)
+            return buf
+        import numpy as np
+
+        buf = bufs.get(k)
+        if buf is None:
+            buf = bufs[k] = np.array(["_" * 8] * len(w))
+        buf[...] = w
+        return buf
     if isinstance(w, str) and op.get("wstr_np") and key == "wells":
         import numpy as np
 
@@ -88,7 +108,8 @@ def _comps(op):
 
 
 # ----------------------------------------------------------------------------- execution
-def exec_op(rt, wl, labs, op):
+def exec_op(rt, wl, labs, op, buffers=None):
+    _STATE["buffers"] = buffers
     k = op["op"]
     if k == "add":
         return labs[op["lab"]].add(_wells(op), _vols(op), op.get("label"), compositions=_comps(op))
